@@ -16,6 +16,7 @@ from __future__ import annotations
 
 import collections
 from collections.abc import Iterable, Sequence
+import copy
 import dataclasses
 import enum
 import itertools
@@ -647,10 +648,15 @@ class ConfusionMatrixAggFn(base.AggregateFn):
     ):
       raise ValueError(f'Global vocab is needed for "{self._average}" average.')
     # A state that never saw a batch is still `create_state()`, i.e. None.
-    iter_acc = (state for state in states if state is not None)
-    result = next(iter_acc, None)
-    for accumulator in iter_acc:
-      result += accumulator
+    result = None
+    for i, accumulator in enumerate(states):
+      if accumulator is None:
+        continue
+      if result is None:
+        # Only the first state may be modified: a later one is merged into a copy.
+        result = accumulator if i == 0 else copy.deepcopy(accumulator)
+      else:
+        result += accumulator
     return result
 
   def get_result(self, state: ConfusionMatrixAggState) -> Any:
